@@ -144,7 +144,9 @@ func (m *Module) RunLowPriorityMicroTask(name string, maxDelay time.Duration, fn
 func (m *Module) runMicroTask(name string, fn func(context.Context) error) (err error) {
 	// start for module
 	// hint: only microTasks global var is important for scheduling, others can be set here
+	verifEvent("pre:inc:m", m.Name)
 	atomic.AddInt32(m.microTaskCnt, 1)
+	verifEvent("post", m.Name)
 
 	// set up recovery
 	defer func() {
@@ -215,7 +217,9 @@ func (m *Module) SignalLowPriorityMicroTask(maxDelay time.Duration) (done func()
 func (m *Module) signalMicroTask() (done func()) {
 	// Start microtask for module.
 	// Global counter is set earlier as required for scheduling.
+	verifEvent("pre:inc:m", m.Name)
 	atomic.AddInt32(m.microTaskCnt, 1)
+	verifEvent("post", m.Name)
 
 	doneCalled := abool.New()
 	return func() {
@@ -227,7 +231,9 @@ func (m *Module) signalMicroTask() (done func()) {
 
 func (m *Module) concludeMicroTask() {
 	// Finish for module.
+	verifEvent("pre:dec:m", m.Name)
 	atomic.AddInt32(m.microTaskCnt, -1)
+	verifEvent("post", m.Name)
 	m.checkIfStopComplete()
 
 	// Finish and possibly trigger next task.
